@@ -678,8 +678,16 @@ namespace ValueFlow
                     else if (tok->valueType()->type == ValueType::Type::LONG)
                         bits = settings.platform.long_bit;
                 }
-                if (bits > 0 && bits < MathLib::bigint_bits)
-                    v.intvalue &= (1ULL<<bits) - 1;
+                if (bits > 0 && bits < MathLib::bigint_bits) {
+                    const MathLib::bigint maxValue = static_cast<MathLib::bigint>((1ULL << bits) - 1);
+                    if (v.isImpossible() && v.bound != Value::Bound::Point) {
+                        // the bound of an impossible range need not be a value of the type (x > -1): ~x is maxValue - x
+                        if (val.intvalue < -1 || val.intvalue > maxValue + 1)
+                            continue;
+                        v.intvalue = maxValue - val.intvalue;
+                    } else
+                        v.intvalue &= maxValue;
+                }
                 setTokenValue(parent, std::move(v), settings);
             }
         }
